@@ -1,6 +1,7 @@
 """C14 — every suggested proof step is applicable and does what the suggestion says.
 
-Case (JSON): {"theory": name, "thm": name, "prefix": k, "gap": i, "facts": [j...], "entry": e | null}
+Case (JSON): {"theory": name, "thm": name, "prefix": k, "walk": [OP...], "gap": i, "facts": [j...], "entry": e | null}
+(walk: optional editing ops in the format of props/c13_edit.py, applied after the prefix; ops that raise are skipped)
 The state is the one reached after the first k recorded steps of the library theorem; search_method is asked for the
 i-th gap (mod #gaps) with the facts picked by index among the visible lines; entry e (mod #entries; null = all,
 capped) is applied to a copy.
@@ -12,7 +13,9 @@ from vlib.harness import CaseInvalid, SelfTestError, time_limit, Timeout
 
 ID = 'C14'
 RULE = ("Proof states = every prefix of the recorded proofs of library theorems (theories logic, nat, function, set, list, "
-        "gcd, iterate, lcm in the quick tier; more in thorough); for a drawn gap line and a drawn selection of <= 2 "
+        "gcd, iterate, lcm in the quick tier; more in thorough) and 14 generated goals in theory logic, in one third of "
+        "the cases followed by a walk of up to 4 editing ops (suggestions, perturbations, next recorded step, as in C13; "
+        "only states that pass a full check are kept); for a drawn gap line and a drawn selection of <= 2 "
         "visible fact lines, every entry returned by state.search_method is applied to a copy through "
         "method.apply_method after supplying the parameters the method declares in sig and the entry leaves open (fresh "
         "names; a type-correct term over the visible variables). Allowed outcomes: success, or "
@@ -97,6 +100,34 @@ def run_case(case, H):
     except Timeout:
         H.inconc('timeout-prefix')
         return
+    walked = 0
+    if case.get('walk'):
+        from props.c13_edit import build_step
+        cursor, last_step = [k], [None]
+        try:
+            with time_limit(90):
+                for op in case['walk'][:5]:
+                    try:
+                        r = build_step(state, op, item, cursor, last_step)
+                        if r is None:
+                            continue
+                        wstep, is_next = r
+                        work = copy.copy(state)
+                        method.apply_method(work, wstep)
+                        work.check_proof(compute_only=True)
+                        work.check_proof()          # only states that pass a full check are query states
+                    except Timeout:
+                        raise
+                    except Exception:
+                        continue
+                    state = work
+                    walked += 1
+                    last_step[0] = wstep
+                    if is_next:
+                        cursor[0] += 1
+        except Timeout:
+            H.inconc('timeout-walk')
+            return
     gaps = edit_lib.sorry_items(state)
     if not gaps:
         H.note('no-gap')
@@ -131,6 +162,8 @@ def run_case(case, H):
         todo = todo[:10]
     before = gap_keys(state)
     sel_key = repr(edit_lib.thm_key(gitem.th))
+    from props.c13_edit import shadowed_variable
+    shadowed = shadowed_variable(state)
     for idx, entry in todo:
         mname = entry['method_name']
         sub = dict(case, entry=idx)
@@ -183,7 +216,7 @@ def run_case(case, H):
                     break
             if outcome != 'exception':
                 break
-        klass = ['m:' + mname, 'outcome:' + outcome]
+        klass = ['m:' + mname, 'outcome:' + outcome] + (['after-walk'] if walked else [])
         adv_goal = entry.get('_goal')
         adv_fact = entry.get('_fact')
         nontrivial = False
@@ -191,6 +224,10 @@ def run_case(case, H):
             H.inconc('timeout-apply')
         elif outcome == 'cannot-supply-parameter':
             H.inconc('cannot-supply-parameter:' + mname)
+        elif outcome == 'exception' and shadowed:
+            # one root cause (recorded under C13 as well): a name re-declared at another type is looked up by name
+            H.violation('suggest:fails-outright:state-with-shadowed-variable', sub,
+                        'entry %s on gap %s: %s' % ({kk: str(v)[:80] for kk, v in base.items()}, gid, detail))
         elif outcome == 'exception':
             H.violation('suggest:fails-outright:%s' % mname, sub,
                         'supplied-parameters=%s entry %s on gap %s facts %s: %s' % (needs_supply, {kk: str(v)[:80] for kk, v in base.items()}, gid,
@@ -229,7 +266,7 @@ def run_case(case, H):
                 if missing:
                     H.violation('suggest:advertised-fact-missing:%s' % mname, sub, 'fact %s is not the statement of any line' % missing[0])
                 nontrivial = True
-        H.case(sub, nontrivial, klass, key={'t': case['theory'], 'n': case['thm'], 'p': k, 'g': gid,
+        H.case(sub, nontrivial, klass, key={'t': case['theory'], 'n': case['thm'], 'p': k, 'w': case.get('walk') or [], 'g': gid,
                                             'f': [edit_lib.id_str(p) for p in chosen], 'e': idx}, sample=nontrivial)
 
 
@@ -280,9 +317,26 @@ def supply_query_param(state, step, pname, gpos, variant):
 
 def case_strategy(corpus):
     from hypothesis import strategies as st
+    from props.c13_edit import PERT
     pool = [(th, nm) for th in sorted(corpus) for nm in corpus[th]]
-    return st.tuples(st.sampled_from(pool), st.integers(0, 12), st.integers(0, 5), st.lists(st.integers(0, 9), max_size=2)).map(
-        lambda p: {'theory': p[0][0], 'thm': p[0][1], 'prefix': p[1], 'gap': p[2], 'facts': p[3], 'entry': None})
+    small = st.integers(0, 7)
+    op = st.one_of(
+        st.tuples(st.just('sugg'), small, st.lists(small, max_size=2), small, st.just(True)).map(list),
+        st.tuples(st.just('sugg'), small, st.lists(small, max_size=2), small, st.just(True)).map(list),
+        st.tuples(st.just('pert'), st.sampled_from(PERT), small, small, small, st.just(True)).map(list),
+        st.tuples(st.just('next'), st.just(True)).map(list))
+    walk = st.one_of(st.just([]), st.just([]), st.lists(op, min_size=1, max_size=4))
+    lib = st.tuples(st.sampled_from(pool), st.integers(0, 12), st.integers(0, 5), st.lists(st.integers(0, 9), max_size=2), walk).map(
+        lambda p: {'theory': p[0][0], 'thm': p[0][1], 'prefix': p[1], 'gap': p[2], 'facts': p[3], 'entry': None, 'walk': p[4]})
+    # generated goals have no recorded steps: the state is reached by 1-3 suggestions (small indices, so that every
+    # short suggestion path of a goal has a fair chance)
+    tiny = st.integers(0, 3)
+    gop = st.tuples(st.just('sugg'), st.integers(0, 2), st.one_of(st.just([]), st.lists(tiny, min_size=1, max_size=1)),
+                    st.integers(0, 5), st.just(True)).map(list)
+    goal = st.tuples(st.integers(0, len(edit_lib.GOALS) - 1), st.lists(gop, min_size=1, max_size=3), st.integers(0, 2),
+                     st.one_of(st.just([]), st.lists(tiny, min_size=1, max_size=2))).map(
+        lambda p: {'theory': '#goal', 'thm': str(p[0]), 'prefix': 0, 'gap': p[2], 'facts': p[3], 'entry': None, 'walk': p[1]})
+    return st.one_of(lib, lib, goal)
 
 
 def shards(tier):
@@ -296,8 +350,11 @@ def run_shard(desc, seed, tier, H):
     def body(case):
         # clamp the prefix to the recorded length so that cases are not wasted
         try:
-            it = edit_lib.get_item(case['theory'], case['thm'])
-            case = dict(case, prefix=case['prefix'] % (len(it.steps) + 1))
+            if case['theory'] == '#goal':
+                case = dict(case, prefix=0)
+            else:
+                it = edit_lib.get_item(case['theory'], case['thm'])
+                case = dict(case, prefix=case['prefix'] % (len(it.steps) + 1))
             run_case(case, H)
         except CaseInvalid:
             H.note('case-invalid')
